@@ -43,8 +43,17 @@ def decorate(chk):
             bad('does not start with one fresh nonce, the request URI and its parsing')
             continue
         nonce_name = evs[0].out
-        if getattr(sv(evs[2].args[0]), 'origin', None) != evs[1].out and not ex.veq(sv(evs[2].args[0]), Tree({}, evs[1].out, None)):
-            pass
+        parsed_arg = smodels.deref_all(ex, st, sv(evs[2].args[0]))
+        if os.environ.get('VERIF_DEBUG_C03'):
+            print('DEBUG parse arg', parsed_arg, '| get_uri out', evs[1].out, file=sys.stderr)
+        if isinstance(parsed_arg, Sc) and z3.is_string(parsed_arg.t):
+            if str(parsed_arg.t).startswith('hv!'):
+                D.failed = D.failed or ('inconclusive', 'the text parsed comes from a call the engine has no model for: cannot decide whether it is the request URI', None, st)
+                continue
+            D.require(st, parsed_arg.t == z3.String(evs[1].out), 'the text parsed is the request URI as returned by get_uri (scheme, authority, path and query of the service URL reach the wire intact)')
+        elif getattr(parsed_arg, 'origin', None) != evs[1].out and not ex.veq(parsed_arg, Tree({}, evs[1].out, None)):
+            bad('the text parsed is not the request URI as returned by get_uri')
+            continue
         r = st.result
         rd = dval(ex, st, ex.discr_of(st, r).t)
         parsed = dval(ex, st, ex.discr_of(st, Tree({}, evs[2].out, None)).t)
